@@ -314,9 +314,26 @@ class Sched:
         self.switch_log = []
         self.probes = {}
         self.inflight = {}   # tid -> label of op in progress (for probes)
+        self.blocked = set()  # tids waiting for a real lock of the code under test
+        self._wake_lock = threading.Lock()
+        self.finished_detached = 0
+        self.deadlocked = []
 
     # called from OpTrace.local on the running thread
     def step(self, tr, kind, frame):
+        if tr.tid in self.blocked:
+            # this thread was blocked on a real lock of the code under test, the
+            # baton was taken away from it by the watchdog; now that it woke up
+            # it queues again and waits for its turn
+            with self._wake_lock:
+                self.blocked.discard(tr.tid)
+                self.runnable.append(tr.tid)
+                self.probes["lock_waits"] = self.probes.get("lock_waits", 0) + 1
+                take = self.current is None
+                if take:
+                    self.current = tr.tid  # nobody holds the baton any more
+            if not take:
+                self.sems[tr.tid].acquire()
         self.gstep += 1
         if self.gstep > self.budget_steps:
             if self.tripped is None:
@@ -341,6 +358,15 @@ class Sched:
             self.sems[tr.tid].acquire()
 
     def _finish(self, tid):
+        if tid in self.blocked:
+            # woke up from a lock and ran to its end without another traced line
+            with self._wake_lock:
+                self.blocked.discard(tid)
+                self.finished_detached += 1
+                last = not self.runnable and not self.blocked
+            if last:
+                self.done.release()
+            return
         self.runnable.remove(tid)
         self.inflight.pop(tid, None)
         if self.runnable:
@@ -348,8 +374,29 @@ class Sched:
             self.switch_log.append([-self.gstep - 1, to])
             self.current = to
             self.sems[to].release()
-        else:
+        elif not self.blocked:
             self.done.release()
+        else:
+            with self._wake_lock:
+                self.current = None  # threads waking up from a lock take the baton
+
+    def _watchdog_pass_baton(self):
+        """The baton holder made no traced step for a while: it is blocked on a
+        lock held by a parked thread (a library that synchronises its own
+        compilation is fine).  Take the baton away and let another thread run."""
+        tid = self.current
+        if tid is None or tid not in self.runnable:
+            return False
+        others = [t for t in self.runnable if t != tid]
+        if not others:
+            return False
+        self.runnable.remove(tid)
+        self.blocked.add(tid)
+        to = min(others)
+        self.switch_log.append([self.gstep, to])
+        self.current = to
+        self.sems[to].release()
+        return True
 
     def run(self, programs):
         """programs: {tid: callable(OpTraceFactory) -> result}.  Each callable is
@@ -389,10 +436,24 @@ class Sched:
         self.switch_log.append([0, first])
         self.current = first
         self.sems[first].release()
-        if not self.done.acquire(timeout=self.wall_timeout):
-            raise HarnessError("scheduler wall timeout (deadlock in harness?)")
+        import time as _time
+        t_start = _time.time()
+        last_step, last_change = -1, _time.time()
+        while not self.done.acquire(timeout=0.1):
+            now = _time.time()
+            if self.gstep != last_step:
+                last_step, last_change = self.gstep, now
+            elif now - last_change > 0.4:
+                if self._watchdog_pass_baton():
+                    last_change = now
+                elif now - last_change > 10.0 and self.blocked:
+                    # every remaining thread waits for a lock nobody will release
+                    self.deadlocked = sorted(self.blocked | set(self.runnable))
+                    break
+            if now - t_start > self.wall_timeout:
+                raise HarnessError("scheduler wall timeout (deadlock in harness?)")
         for th in threads:
-            th.join(self.wall_timeout)
+            th.join(self.wall_timeout if not self.deadlocked else 0.1)
         if errors:
             raise HarnessError(f"harness exception in simulated thread: {errors[0]!r}") from errors[0][1]
         return self.results
